@@ -91,7 +91,8 @@ def ref_bin(op, a, b, b_is_const=False):
 
 
 def gen_case(rng, max_ops=8, max_meas=5, allow_pairs=True, allow_corr=True, ops=None,
-             allow_repeated=False, allow_revalue=False, allow_cast=False, allow_special=True):
+             allow_repeated=False, allow_revalue=False, allow_cast=False, allow_special=True,
+             allow_routes=False):
     """one formula DAG; returns a JSON-able dict or None when the draw fell out of domain"""
     n_meas = rng.randint(1, max_meas)
     vals, errs = [], []
@@ -150,6 +151,7 @@ def gen_case(rng, max_ops=8, max_meas=5, allow_pairs=True, allow_corr=True, ops=
     used_ops = []
     pairs_made = []
     casts_made = []
+    routes = {}
     template = None
     if allow_special and rng.random() < 0.10:
         # a formula that starts from a special point: a measured logarithm base that equals a
@@ -260,6 +262,10 @@ def gen_case(rng, max_ops=8, max_meas=5, allow_pairs=True, allow_corr=True, ops=
         quantity.append(True)
         used_ops.append(op)
         made += 1
+        if allow_routes and rng.random() < 0.3:
+            rt = gen_route(rng, nodes, len(nodes) - 1)
+            if rt:
+                routes[str(len(nodes) - 1)] = rt
         if allow_cast and rng.random() < 0.07:
             # the result just made is overridden by hand (value, uncertainty or relative
             # uncertainty assigned): from then on it is a measurement of its own — a new,
@@ -326,10 +332,66 @@ def gen_case(rng, max_ops=8, max_meas=5, allow_pairs=True, allow_corr=True, ops=
                 if ref_eval_all(probe, trial) is not None:
                     revalue = [k, bits(trial[k])]
                     break
-    return {"casts": casts_made, "template": template, "equal_pairs": len(pairs_made) - len(set(pairs_made)),
+    return {"routes": routes, "casts": casts_made, "template": template, "equal_pairs": len(pairs_made) - len(set(pairs_made)),
             "fault": bool(allow_revalue and rng.random() < 0.3), "revalue": revalue, "revise": revise, "nodes": nodes, "root": root, "vals": [bits(v) for v in vals],
             "errs": [bits(e) for e in errs], "rho": rho, "n_meas": n_meas, "raw": raw,
             "ops": used_ops, "ref_value": bits(ref[root])}
+
+
+# ---- call forms (routes): the same operator applied through containers ------------------------
+# An element of an array result is a calculated quantity like any other, so the derivative law is
+# judged for formulas some of whose operators were applied to arrays: a quantity operand travels in
+# a MeasurementArray ("marr": the existing object wrapped, next to fresh unrelated measurements), in
+# a plain Python list of quantity objects ("objlist") or on its own ("scalar", broadcast); a number
+# operand travels in a plain list, a non-qexpy ndarray or on its own. Every combination Python can
+# dispatch (direct and reflected operator methods, list / ndarray / scalar on either side) is drawn.
+# A (value, error) tuple is only ever a scalar operand (a tuple inside a list has no meaning), and
+# is not passed to the vectorised math functions next to a container (numpy would read it as an
+# array of two numbers).
+def gen_route(rng, nodes, idx):
+    n = nodes[idx]
+    if n[0] not in ("un", "deg", "bin"):
+        return None
+    opnds = n[2:]
+    func = n[0] != "bin" or n[1] == "log"      # applied through q.<function>, not an operator
+    forms = []
+    for i in opnds:
+        t = nodes[i][0]
+        if t == "const":
+            forms.append(rng.choice(["list", "ndarray", "scalar"]))
+        elif t == "pair":
+            if func:
+                return None
+            forms.append("scalar")
+        else:
+            forms.append(rng.choice(["marr", "marr", "objlist", "scalar"]))
+    qpos = [j for j, i in enumerate(opnds) if nodes[i][0] not in ("const", "pair")]
+    if func:
+        if all(f == "scalar" for f in forms):
+            forms[rng.choice(qpos)] = "marr"
+    elif "marr" not in forms:
+        forms[rng.choice(qpos)] = "marr"       # an operator needs a qexpy array on one side
+    if n[1] == "neg":
+        forms = ["marr"]       # unary minus is an operator: a plain list has none
+    L = rng.randint(1, 3)
+    return {"L": L, "k": rng.randrange(L), "forms": forms}
+
+
+def _container(q, form, obj, L, k):
+    import numpy as np
+    if form == "scalar":
+        return obj
+    if form in ("list", "ndarray"):
+        xs = [obj] * L
+        return xs if form == "list" else np.array(xs)
+    # fresh, unrelated measurements with the same reading (inside every domain the operand is in)
+    xs = [obj if j == k else q.Measurement(float(obj.value), abs(float(obj.value)) * 0.01 + 0.01)
+          for j in range(L)]
+    return xs if form == "objlist" else q.MeasurementArray(xs)
+
+
+def _element(res, k):
+    return res[k]
 
 
 def _referenced(nodes):
@@ -405,8 +467,27 @@ def build_impl(q, case, casts=None):
                 getattr(m, sel)()
             meas.append(m)
     objs = []
+    routes = case.get("routes") or {}
+    late = set(case.get("late") or [])
     for n in case["nodes"]:
         t = n[0]
+        if len(objs) in late:
+            objs.append(None)       # made later, in the middle of the history (build_node)
+            continue
+        rt = routes.get(str(len(objs)))
+        if rt is not None and t in ("un", "deg", "bin"):
+            args = [_container(q, f, objs[i], rt["L"], rt["k"]) for f, i in zip(rt["forms"], n[2:])]
+            op = n[1]
+            if t == "bin" and op != "log":
+                res = PYOPS[op](*args)
+            elif op == "neg":
+                res = -args[0]
+            elif op == "ln":
+                res = q.log(args[0])
+            else:
+                res = getattr(q, op)(*args)
+            objs.append(_element(res, rt["k"]))
+            continue
         if t == "var":
             objs.append(meas[n[1]])
         elif t == "const":
@@ -457,6 +538,22 @@ def build_impl(q, case, casts=None):
     for i, e in (case.get("revise") or {}).items():
         meas[int(i)].error = unbits(e)
     return objs, meas
+
+
+def build_node(q, case, objs, idx):
+    """apply the operator of node idx to the operand OBJECTS that exist now (a result created in the
+    middle of a session)"""
+    n = case["nodes"][idx]
+    t, op = n[0], n[1]
+    if t == "un":
+        a = objs[n[2]]
+        return -a if op == "neg" else q.log(a) if op == "ln" else getattr(q, op)(a)
+    if t == "deg":
+        return getattr(q, op)(objs[n[2]])
+    if t == "bin":
+        a, b = objs[n[2]], objs[n[3]]
+        return q.log(a, b) if op == "log" else PYOPS[op](a, b)
+    raise ValueError(t)
 
 
 def ref_eval_all(case, vals):
